@@ -28,7 +28,7 @@ ASSUMPTIONS = [
     'a refused open (no server on the PSM) must raise and leave the tables unchanged',
 ]
 MIN_EVENTS = {
-    'quick': {'table_comparisons': 3000, 'ops': 1500, 'reopen_after_close': 100, 'cut_points': 80},
+    'quick': {'table_comparisons': 12000, 'ops': 4000, 'reopen_after_close': 1000, 'cut_points': 500},
     'thorough': {'table_comparisons': 60000, 'ops': 30000, 'reopen_after_close': 2000, 'cut_points': 800},
 }
 CASE_TIMEOUT = 300
@@ -42,7 +42,7 @@ PSM_BR_NONE = 0x1005
 
 def plan(tier, seed):
     cases = []
-    n = 140 if tier == 'quick' else 2800
+    n = 400 if tier == 'quick' else 2800
     for i in range(n):
         cases.append({'kind': 'hist', 'seed': seed * 1000003 + i, 'transport': 'le' if i % 4 else 'bredr'})
     ops = ['le', 'enh2', 'le-close', 'le-close-peer', 'le-drain', 'le-drain1', 'le-drain1-close', 'br', 'br-close',
